@@ -15,12 +15,21 @@ Per run:
       and real nlopt / scipy optimisers on closed-form Spectrum-valued models (every model evaluation logged, the
       returned point re-evaluated);
   (3) Misc.perturb_params with numpy.random.uniform replaced by given draws: model correspondence + "stays in bounds".
+(0') also runs, on every run, every element type and container of the free vector / the full vector (Python int, float,
+bool, numpy int64 / int32 / float32 / float64 / bool_ scalars, 0-d arrays, lists / tuples / arrays of each dtype, the bare
+scalar) against fixed values that are non-integers, negative, zero and not float32 numbers: the expanded vector holds the fixed
+and the free values exactly (the model has values, not machine types).  (1) and (2) run, for every wrapper, whole-number boxes
+and starts written with integer types (`p0=[1, 2]`, `upper_bound=[10, 10]`, int arrays) beside fixed values that are not
+whole, in leading / middle / trailing position; optimize_grid with every typing of its ranges (all Python ints -- numpy.mgrid
+is then an integer array that scipy.optimize.brute hands to the objective as it is --, int/float mixed, complex step `5j`):
+every model evaluation carries the fixed values, the likelihood of the returned point is the reported optimum, and the search
+returns the grid point on which the likelihood peaks.  The scripted scipy stubs evaluate the start as it was handed to them.
 In (1) and (2) a systematic block of edge patterns runs for every wrapper on every run: parameters fixed at exactly zero
 (before, between, after the free ones; several; all), negative and at-a-bound fixed values, bound entries equal to zero,
 arguments as list / tuple / numpy array.  In the model "fixed at 0" is [Some 0] and "no bound" is [None]: truthiness has no
 counterpart there, and the theorems (C12_up_down_inverse, C12_down_up_inverse, ...) are stated for every [Some v].
 """
-import ast, itertools, json, math, os, re
+import ast, itertools, json, math, os, random, re
 from fractions import Fraction
 from harness import lib
 from harness.lib import q, ql, b
@@ -566,6 +575,86 @@ def edge_tag(edge):
     return ','.join('%d:%s' % (i, w) for i, w in sorted(edge['fix'].items())) + \
         ('|lo0=%s' % edge['lo0'] if edge.get('lo0') else '') + ('|hi0=%s' % edge['hi0'] if edge.get('hi0') else '')
 
+# ---- whole numbers written with integer types -----------------------------------------------------------------------
+# `p0=[1, 2]`, `upper_bound=[10, 10]`, `index_exp[2:7:1]` are natural input.  numpy.mgrid over ranges whose numbers are ALL
+# Python ints is an integer array, and scipy.optimize.brute hands its rows to the objective as they are; a start projected
+# down from a list of ints is an integer array, and an optimiser may evaluate it as handed (scipy.optimize.fmin_powell does).
+# The fixed values beside them are not whole numbers.  Every wrapper meets these on every run, with the fixed value before,
+# between and after the free ones.
+INT_POSITIONS = [(3, [0]), (3, [1]), (3, [2]), (2, [1]), (4, [0, 2])]
+INT_P0_SPELLINGS = [('list', 'int'), ('tuple', 'int'), ('array:int64', 'int'), ('list', 'npint'), ('array:int32', 'int'), ('array:auto', 'int'), ('tuple', 'npint32')]
+INT_BOUND_CONTAINERS = ['list', 'tuple', 'array:int64', 'list', 'array:int32']
+# per free parameter, the Python types of start:stop:step   (I int, F float, C complex step = number of points, ends included)
+GRID_TYPINGS = {1: [['III'], ['IIC'], ['FFF'], ['IFI'], ['FFC']],
+                2: [['III', 'III'], ['III', 'FFF'], ['IFI', 'III'], ['IIC', 'III'], ['IIC', 'IIC'], ['III', 'FFC'], ['III', 'IIF']],
+                3: [['III', 'III', 'III'], ['III', 'IIC', 'III']]}
+
+def int_box(rng, rot, n, ints):
+    lower = [float(rng.choice([1, 2])) for _ in range(n)]
+    upper = [lower[i] + rng.choice([3.0, 4.0, 6.0]) for i in range(n)]
+    fixed = [None] * n
+    fkinds = [None] * n
+    for j, i in enumerate(ints['fixed_at']):
+        fixed[i] = lower[i] + rot.next([0.5, 1.5, 0.25, 2.75, 0.1])       # inside its own box, not a whole number
+        fkinds[i] = rot.next(['float', 'npfloat'])
+        if j == 1 and not ints.get('positive'):
+            fixed[i] = -rot.next([0.75, 2.5]); lower[i] = -3.0; upper[i] = 1.0
+    cont, kind = rot.next(INT_P0_SPELLINGS)
+    extra = {'fixed_kinds': fkinds, 'fixed_container': rot.next(CONTAINERS), 'p0_kinds': [kind] * n, 'p0_container': cont,
+             'lower_kinds': ['int'] * n, 'upper_kinds': ['int'] * n, 'bound_container': rot.next(INT_BOUND_CONTAINERS),
+             'ints': 'fixed at %s of %d' % (ints['fixed_at'], n)}
+    return lower, upper, fixed, extra
+
+def typed_grid(rng, starts, typing):
+    """ranges ([start, stop, step] or, with a complex step, [start, stop, number of points]), the Python type of each number,
+    and the values numpy.mgrid gives along each axis"""
+    K = {'I': 'int', 'F': 'float', 'C': 'complex'}
+    ranges, kinds, axes = [], [], []
+    for lo, ty in zip(starts, typing):
+        npts = rng.choice([2, 3]) if len(typing) >= 3 else rng.choice([3, 4])
+        whole = 'F' not in ty
+        start = float(int(lo)) if ty[0] == 'I' else float(int(lo)) + 0.5
+        step = float(rng.choice([1, 2])) if whole or ty[2] == 'I' else rng.choice([0.5, 1.0, 0.75])
+        if ty[2] == 'C':
+            stop = start + step * (npts - 1)              # both ends included: start + k * (stop - start) / (npts - 1)
+            if ty[1] == 'I':
+                assert stop == int(stop)
+            ranges.append([start, stop, float(npts)])
+            axes.append([start + k * ((stop - start) / float(npts - 1)) for k in range(npts)])
+        else:
+            stop = start + step * npts if ty[1] == 'I' else start + step * npts - step / 2.0
+            if ty[1] == 'I' and stop != int(stop):
+                stop = float(math.ceil(stop))
+            ranges.append([start, stop, step])
+            axes.append([start + k * step for k in range(int(math.ceil((stop - start) / step)))])
+        kinds.append([K[ch] for ch in ty])
+    return ranges, kinds, axes
+
+def gen_scripted_types(ctx, cases, fns):
+    rng = sub_rng(ctx, 'scripted types')
+    rot = Rot(ctx.seed + 3)
+    for fn, log_opt in fns:
+        if fn == 'optimize_grid':
+            continue
+        logspace = log_opt if fn == 'opt' else LOG_SPACE.get(fn, False)
+        for n, fixed_at in INT_POSITIONS:
+            c = gen_one_scripted(rng, fn, log_opt, n, None, rot=rot,
+                                 ints={'fixed_at': fixed_at, 'positive': logspace or fn in NEEDS_POSITIVE})
+            c['id'] = len(cases)
+            cases.append(c)
+    # optimize_grid: every typing of the ranges x the fixed value(s) before / between / after the free parameters
+    for nfree, typings in sorted(GRID_TYPINGS.items()):
+        for typing in typings:
+            layouts = [[0], [nfree]] + ([[1]] if nfree >= 2 else []) + [[0, nfree + 1]]
+            if nfree == 3:
+                layouts = [[rot.next([0, 1, 2, 3])]]
+            for fixed_at in layouts:
+                n = nfree + len(fixed_at)
+                c = gen_one_scripted(rng, 'optimize_grid', False, n, None, rot=rot, ints={'fixed_at': fixed_at, 'grid': typing})
+                c['full_output'] = bool(rot.count('grid full_output') % 3)
+                c['id'] = len(cases)
+                cases.append(c)
+
 def gen_scripted(ctx):
     rng = ctx.rng
     cases = []
@@ -590,15 +679,20 @@ def gen_scripted(ctx):
                     c = gen_one_scripted(rng, fn, log_opt, n, None, edge=edge, rot=rot)
                     c['id'] = len(cases)
                     cases.append(c)
+    gen_scripted_types(ctx, cases, fns)
     return cases
 
-def gen_one_scripted(rng, fn, log_opt, n, pat, edge=None, rot=None):
+def gen_one_scripted(rng, fn, log_opt, n, pat, edge=None, rot=None, ints=None):
     logspace = log_opt if fn == 'opt' else LOG_SPACE.get(fn, False)
     positive = logspace or fn in NEEDS_POSITIVE or (rng.random() < 0.4)
     lower, upper = gen_box(rng, n, positive)
     fixed = None
     extra = {}
-    if edge is not None:
+    if ints is not None:
+        # whole-number box, start and grid, written with integer types; the fixed values are not whole numbers
+        lower, upper, fixed, extra = int_box(rng, rot, n, ints)
+        edge = {'fix': {}}                               # (full bound lists, short scripts, no NaN region: as for the edge block)
+    elif edge is not None:
         extra = apply_edge(rng, rot, n, lower, upper, edge, logspace)
         fixed = extra.pop('fixed')
         extra['edge'] = edge_tag(edge)
@@ -608,6 +702,8 @@ def gen_one_scripted(rng, fn, log_opt, n, pat, edge=None, rot=None):
             fixed[i] = inside(rng, lower[i], upper[i])
     free = [i for i in range(n) if fixed is None or fixed[i] is None]
     p0 = [inside(rng, lower[i], upper[i]) for i in range(n)]
+    if ints is not None:
+        p0 = [lower[i] + float(rng.randint(1, int(upper[i] - lower[i]) - 1)) for i in range(n)]
     c = {'fn': fn, 'log_opt': log_opt, 'n': n, 'p0': p0, 'fixed': fixed, 'multinom': rng.random() < 0.5,
          'll_scale': rng.choice([1, 1, 2, 0.5, 4]), 'maxiter': 50 if fn == 'optimize_cons' else None,
          'full_output': rng.random() < 0.85, 'ret': None}
@@ -635,6 +731,21 @@ def gen_one_scripted(rng, fn, log_opt, n, pat, edge=None, rot=None):
         ulo[rng.randrange(n)] = rng.choice([0.0, -1.0])  # log -> -inf / nan, exactly as written
     c['lower'], c['upper'] = ulo, uhi
     nanthr = [c['llm'].get('nan'), c['llp'].get('nan')]
+    if fn == 'optimize_grid' and ints is not None:
+        for k in ('p0_kinds', 'p0_container', 'lower_kinds', 'upper_kinds', 'bound_container'):
+            c.pop(k, None)
+        ranges, kinds, axes = typed_grid(rng, [lower[i] for i in free], ints['grid'])
+        c['grid'], c['grid_kinds'] = ranges, kinds
+        c['grid_points'] = [list(t) for t in itertools.product(*axes)]
+        # the likelihoods peak on a grid point: the search must come back with exactly that point
+        truth = [rng.choice(ax) for ax in axes]
+        for spec in (c['llm'], c['llp']):
+            for j, i in enumerate(free):
+                spec['cs'][i] = truth[j]
+        c['grid_truth'] = [truth[free.index(i)] if i in free else None for i in range(n)]
+        c['props'] = []
+        c['p0'] = None
+        return c
     if fn == 'optimize_grid':
         ranges = []
         for i in free:
@@ -731,7 +842,7 @@ def real_variants():
         + [('opt', False, a) for a in GLOBAL_NLOPT] + [('opt', True, GLOBAL_NLOPT[0])] \
         + [(f, False, None) for f in SCIPY_FNS] + [('optimize_grid', False, None)]
 
-def gen_one_real(rng, fn, log_opt, alg, n, pat, edge=None, rot=None):
+def gen_one_real(rng, fn, log_opt, alg, n, pat, edge=None, rot=None, box=None):
     logspace = log_opt if fn == 'opt' else LOG_SPACE.get(fn, False)
     positive = logspace or fn in NEEDS_POSITIVE or rng.random() < 0.6
     lower, upper = [], []
@@ -744,7 +855,10 @@ def gen_one_real(rng, fn, log_opt, alg, n, pat, edge=None, rot=None):
     fixed = None
     extra = {}
     press = {}
-    if edge is not None:
+    if box is not None:
+        lower, upper, fixed, extra = box                 # whole-number box with integer types, fixed values not whole (int_box)
+        extra = dict(extra)
+    elif edge is not None:
         extra = apply_edge(rng, rot, n, lower, upper, edge, logspace)
         fixed = extra.pop('fixed')
         extra['edge'] = edge_tag(edge)
@@ -766,6 +880,8 @@ def gen_one_real(rng, fn, log_opt, alg, n, pat, edge=None, rot=None):
          'model': gen_model(rng, n, lower, upper, press), 'seed': rng.randint(1, 10 ** 6),
          'box': [list(lower), list(upper)]}
     c.update(extra)
+    if box is not None:
+        c['p0'] = [lower[i] + float(rng.randint(1, int(upper[i] - lower[i]) - 1)) for i in range(n)]
     if fn == 'opt':
         c['maxeval'] = 150 if alg in GLOBAL_NLOPT else 400
         if alg in GLOBAL_NLOPT:
@@ -786,7 +902,7 @@ def gen_one_real(rng, fn, log_opt, alg, n, pat, edge=None, rot=None):
             step = (upper[i] - lower[i]) / (npts + 1)
             c['grid'].append([lower[i] + step / 2, upper[i], step])
         c['p0'] = None; c['lower'] = None; c['upper'] = None
-    elif edge is None and fn in ('opt', 'optimize_cons', 'optimize_lbfgsb', 'optimize') and rng.random() < 0.25 and alg not in GLOBAL_NLOPT:
+    elif edge is None and box is None and fn in ('opt', 'optimize_cons', 'optimize_lbfgsb', 'optimize') and rng.random() < 0.25 and alg not in GLOBAL_NLOPT:
         # None entries / whole-list None where the wrapper documents them
         if fn == 'opt' and log_opt:
             pass                      # an absent lower bound in log space is the subject of a probe
@@ -795,6 +911,88 @@ def gen_one_real(rng, fn, log_opt, alg, n, pat, edge=None, rot=None):
         else:
             c['lower'][rng.randrange(n)] = None
     return c
+
+def sfs_py(spec, p):
+    m = len(spec['base'])
+    return [spec['base'][j] + sum(spec['quad'][k][j] * (p[k] - spec['cs'][k]) ** 2 + spec['lin'][k][j] * p[k] for k in range(len(p))) for j in range(m)]
+
+def ll_py(model, data, multinom):
+    """generator-side only (margin between the best and the second-best grid point): Poisson log-likelihood over the interior
+    entries, the model scaled to the data's total with multinom"""
+    mv, dv = model[1:-1], data[1:-1]
+    if multinom:
+        sc = sum(dv) / sum(mv)
+        mv = [sc * v for v in mv]
+    return sum(-a + d * math.log(a) - math.lgamma(d + 1.0) for a, d in zip(mv, dv))
+
+def gen_grid_model(rng, n, fixed, free, axes, multinom):
+    """a closed-form model whose likelihood has its maximum over the whole parameter space at a GRID point (the data are the
+    model there, exactly); the parameters are coupled (every entry depends on several of them), so that a search that runs with
+    other values for the fixed parameters ranks the grid points differently"""
+    pts = [list(t) for t in itertools.product(*axes)]
+    for attempt in range(60):
+        m = rng.randint(7, 9)
+        base = [0.0] + [float(rng.randint(16, 48)) * 8 for _ in range(m - 2)] + [0.0]
+        quad = [[0.0] + [lib.dyadic(rng, -0.5, 0.5, 5) for _ in range(m - 2)] + [0.0] for _ in range(n)]
+        for k in range(n):
+            quad[k][1 + k % (m - 2)] = 0.375
+        # centres to the left of the grid (no mirror image of a grid point is a grid point), fixed ones near their value
+        cs = [None] * n
+        for j, i in enumerate(free):
+            cs[i] = min(axes[j]) - rng.choice([0.75, 1.25, 0.375])
+        for i in range(n):
+            if cs[i] is None:                             # (far from the fixed value: a fixed value that is off by a fraction matters)
+                cs[i] = fixed[i] - rng.choice([5.0, 8.0, 6.5])
+        truth_free = [rng.choice(ax) for ax in axes]
+        truth = [truth_free[free.index(i)] if i in free else fixed[i] for i in range(n)]
+        spec = {'base': base, 'quad': quad, 'lin': [[0.0] * m for _ in range(n)], 'cs': cs}
+        theta = rng.choice([1.0, 2.0, 0.5]) if multinom else 1.0
+        spec['data'] = [theta * v for v in sfs_py(spec, truth)]
+        spec['truth'] = truth
+        full = lambda t: [t[free.index(i)] if i in free else fixed[i] for i in range(n)]
+        models = [sfs_py(spec, full(t)) for t in pts]
+        if any(v <= 1.0 for mdl in models for v in mdl[1:-1]):
+            continue
+        best = ll_py(sfs_py(spec, truth), spec['data'], multinom)
+        others = [ll_py(mdl, spec['data'], multinom) for t, mdl in zip(pts, models) if t != truth_free]
+        if all(best - o > 1e-5 * max(1.0, abs(best)) for o in others):
+            return spec
+    raise RuntimeError('no identifiable grid model found')
+
+def gen_real_types(ctx, cases, variants):
+    """whole-number boxes, starts and grids written with integer types, fixed values that are not whole numbers (see
+    gen_scripted_types), for the real optimisers"""
+    rng = sub_rng(ctx, 'real types')
+    rot = Rot(ctx.seed + 4)
+    for fn, log_opt, alg in variants:
+        if fn == 'optimize_grid':
+            continue
+        logspace = log_opt if fn == 'opt' else LOG_SPACE.get(fn, False)
+        for n, fixed_at in (INT_POSITIONS[:3] if ctx.quick else INT_POSITIONS):
+            lower, upper, fixed, extra = int_box(rng, rot, n, {'fixed_at': fixed_at, 'positive': True})
+            c = gen_one_real(rng, fn, log_opt, alg, n, None, box=(lower, upper, fixed, extra))
+            c['id'] = len(cases)
+            cases.append(c)
+    for nfree, typings in sorted(GRID_TYPINGS.items()):
+        for typing in typings:
+            layouts = [[0], [nfree]] + ([[1]] if nfree >= 2 else []) + [[0, nfree + 1]]
+            if nfree == 3 or (ctx.quick and typing != ['I' * 3] * nfree):
+                layouts = [[rot.next(list(range(nfree + 1)))]]
+            for fixed_at in layouts:
+                n = nfree + len(fixed_at)
+                lower, upper, fixed, extra = int_box(rng, rot, n, {'fixed_at': fixed_at})
+                free = [i for i in range(n) if fixed[i] is None]
+                ranges, kinds, axes = typed_grid(rng, [lower[i] for i in free], typing)
+                multinom = bool(rot.count('grid multinom') % 2)
+                c = {'fn': 'optimize_grid', 'log_opt': False, 'algorithm': None, 'n': n, 'p0': None, 'fixed': fixed, 'lower': None, 'upper': None,
+                     'multinom': multinom, 'll_scale': 1, 'full_output': True, 'seed': rng.randint(1, 10 ** 6),
+                     'fixed_kinds': extra['fixed_kinds'], 'fixed_container': extra['fixed_container'], 'ints': extra['ints'],
+                     'grid': ranges, 'grid_kinds': kinds, 'model': gen_grid_model(rng, n, fixed, free, axes, multinom)}
+                c['grid_truth'] = [c['model']['truth'][i] if i in free else None for i in range(n)]
+                c['box'] = [[min(axes[free.index(i)]) if i in free else fixed[i] for i in range(n)],
+                            [max(axes[free.index(i)]) if i in free else fixed[i] for i in range(n)]]
+                c['id'] = len(cases)
+                cases.append(c)
 
 def gen_real(ctx):
     rng = ctx.rng
@@ -836,6 +1034,7 @@ def gen_real(ctx):
                 c = gen_one_real(rng, fn, log_opt, alg, n, None, edge=edge, rot=rot)
                 c['id'] = len(cases)
                 cases.append(c)
+    gen_real_types(ctx, cases, variants)
     return cases
 
 # ------------------------------------------------------------------------------------------------
@@ -900,6 +1099,11 @@ def clauses(ctx, c, r, ll_at_x, ll_at_p0, mode, only=None):
         if viol:
             bad.append(('model-evaluated-out-of-bounds', 'evaluated at %r, bounds %r %r' % (e, lo, hi)))
             break
+    # 3b grid search: the likelihood peaks on a grid point by construction, the search returns exactly that point
+    if fn == 'optimize_grid' and c.get('grid_truth') is not None and c.get('ret') is None:
+        t = c['grid_truth']
+        if any(t[i] is not None and x[i] != t[i] for i in range(n)):
+            bad.append(('grid-search-misses-on-grid-optimum', 'grid search over %s returned %r; the likelihood peaks on the grid point %r' % (grid_repr(c), x, [t[i] if t[i] is not None else fixed[i] for i in range(n)])))
     # 4 local optimisers: first model evaluation at the user's start
     if fn != 'optimize_grid' and not c.get('global'):
         p0s = [c['p0'][i] if i in free else fixed[i] for i in range(n)]
@@ -997,17 +1201,45 @@ def typed_repr(vals, kinds, container, force_object=False):
     def one(v, k):
         if v is None:
             return 'None'
-        return {'int': '%d' % v, 'negzero': '-0.0', 'npfloat': 'numpy.float64(%r)' % float(v), 'npint': 'numpy.int64(%d)' % v,
-                'bool': repr(bool(v))}.get(k, repr(float(v)))
-    body = ', '.join(one(v, k) for v, k in zip(vals, kinds))
-    return {'tuple': '(%s%s)' % (body, ',' if len(vals) == 1 else ''),
-            'array': 'numpy.array([%s]%s)' % (body, ', dtype=object' if force_object or any(v is None for v in vals) else '')}.get(container, '[%s]' % body)
+        if k in ('int', 'npint', 'npint32', 'np0d_int'):
+            return {'int': '%d', 'npint': 'numpy.int64(%d)', 'npint32': 'numpy.int32(%d)', 'np0d_int': 'numpy.array(%d)'}[k] % v
+        if k == 'negzero':
+            return '-0.0'
+        if k in ('bool', 'npbool'):
+            return repr(bool(v)) if k == 'bool' else 'numpy.bool_(%r)' % bool(v)
+        if k in ('npfloat', 'npfloat32', 'np0d'):
+            return {'npfloat': 'numpy.float64(%r)', 'npfloat32': 'numpy.float32(%r)', 'np0d': 'numpy.array(%r)'}[k] % float(v)
+        return repr(float(v))
+    items = [one(v, k) for v, k in zip(vals, kinds)]
+    body = ', '.join(items)
+    if container == 'tuple':
+        return '(%s%s)' % (body, ',' if len(vals) == 1 else '')
+    if container == 'scalar':
+        return body
+    if container == 'array0d':
+        return 'numpy.array(%s)' % body
+    if container == 'array:auto':
+        return 'numpy.array([%s])' % body
+    if isinstance(container, str) and container.startswith('array:'):
+        return 'numpy.array([%s], dtype=numpy.%s)' % (body, container[6:] + ('_' if container[6:] == 'bool' else ''))
+    if container == 'array':
+        return 'numpy.array([%s]%s)' % (body, ', dtype=object' if force_object or any(v is None for v in vals) else '')
+    return '[%s]' % body
+
+def grid_repr(c):
+    """the grid as the index expression that was handed to optimize_grid"""
+    kinds = c.get('grid_kinds') or [None] * len(c['grid'])
+    def num(v, k):
+        return {'int': '%d' % v, 'npint': 'numpy.int64(%d)' % v, 'complex': '%dj' % v}.get(k, repr(float(v)))
+    return 'index_exp[%s]' % ', '.join(':'.join(num(v, k) for v, k in zip(r, ks or [None] * 3)) for r, ks in zip(c['grid'], kinds))
 
 def inputs_text(c):
-    return 'fixed_params=%s p0=%r lower_bound=%s upper_bound=%s' % (
-        typed_repr(c.get('fixed'), c.get('fixed_kinds'), c.get('fixed_container'), True), c.get('p0'),
+    p0 = repr(c.get('p0')) if not (c.get('p0_kinds') or c.get('p0_container')) else typed_repr(c.get('p0'), c.get('p0_kinds'), c.get('p0_container'))
+    return 'fixed_params=%s p0=%s lower_bound=%s upper_bound=%s%s' % (
+        typed_repr(c.get('fixed'), c.get('fixed_kinds'), c.get('fixed_container'), True), p0,
         typed_repr(c.get('lower'), c.get('lower_kinds'), c.get('bound_container')),
-        typed_repr(c.get('upper'), c.get('upper_kinds'), c.get('bound_container')))
+        typed_repr(c.get('upper'), c.get('upper_kinds'), c.get('bound_container')),
+        (' grid=' + grid_repr(c)) if c.get('grid') is not None else '')
 
 def report(ctx, c, failures, r, mode, seen):
     for clause, msg in failures:
@@ -1047,7 +1279,14 @@ def run_scripted(ctx, cases, seen):
         fn = c['fn']
         ctx.count('scripted fn=%s%s' % (fn, '+log_opt' if c.get('log_opt') else ''))
         ctx.count('scripted nfixed=%d/%d' % (0 if c['fixed'] is None else sum(v is not None for v in c['fixed']), c['n']))
-        ctx.case(signature=('s', fn, c.get('log_opt'), c['p0'], c['fixed'], c['lower'], c['upper'], c['props'], c.get('grid')),
+        if c.get('ints'):
+            ctx.count('scripted whole numbers with integer types: fixed (not whole) at ' + c['ints'])
+            if c.get('p0_container'):
+                ctx.count('scripted integer p0 as %s of %s' % (c['p0_container'], c['p0_kinds'][0]))
+                ctx.count('scripted integer bounds as %s' % c['bound_container'])
+            if c.get('grid_kinds'):
+                ctx.count('scripted grid ranges typed ' + ','.join(''.join(k[0].upper() for k in ks) for ks in c['grid_kinds']))
+        ctx.case(signature=('s', fn, c.get('log_opt'), c['p0'], c['fixed'], c['lower'], c['upper'], c['props'], c.get('grid'), c.get('p0_kinds'), c.get('p0_container'), c.get('grid_kinds')),
                  sample={'mode': 'scripted', 'fn': fn, 'log_opt': c.get('log_opt'), 'p0': c['p0'], 'fixed': c['fixed'], 'lower': c['lower'],
                          'upper': c['upper'], 'props': c['props'], 'impl': {k: r.get(k) for k in ('x', 'f', 'error')}})
         for variant in variants_of(c):
@@ -1155,7 +1394,11 @@ def run_real(ctx, cases, seen):
         ctx.count('real multinom=%s' % c['multinom'])
         if c.get('edge') is not None:
             ctx.count('real edge ' + c['edge'])
-        ctx.case(signature=('r', tag, c['p0'], c['fixed'], c['lower'], c['upper'], c['model']['cs']),
+        if c.get('ints'):
+            ctx.count('real whole numbers with integer types: fixed (not whole) at ' + c['ints'])
+            if c.get('grid_kinds'):
+                ctx.count('real grid ranges typed ' + ','.join(''.join(k[0].upper() for k in ks) for ks in c['grid_kinds']))
+        ctx.case(signature=('r', tag, c['p0'], c['fixed'], c['lower'], c['upper'], c['model']['cs'], c.get('p0_kinds'), c.get('p0_container'), c.get('grid'), c.get('grid_kinds')),
                  sample={'mode': 'real', 'fn': tag, 'p0': c['p0'], 'fixed': c['fixed'], 'lower': c['lower'], 'upper': c['upper'],
                          'impl': {k: r.get(k) for k in ('x', 'f', 'll_at_x', 'error')}, 'evaluations': len(r.get('evals', []))})
         if 'error' in r:
@@ -1267,7 +1510,83 @@ def gen_project(ctx):
         add(fixed, kinds, 'wrong length', pin=[val() for _ in range(3)])
         add(fixed, kinds, 'scalar up', free=[val()], free_scalar=(sum(v is None for v in fixed) == 1))
         add(fixed, kinds, 'surplus up', free=[val() for _ in range(sum(v is None for v in fixed) + 1)])
+    gen_project_types(ctx, cases, rot)
     return cases
+
+# ---- element types and containers of the vectors ---------------------------------------------------------------------
+# The model has values, not machine types: the expanded vector holds the fixed values and the free values EXACTLY, whatever
+# Python / numpy type carried them in.  An integer-valued free vector is natural input (`p0=[1, 2]`; numpy.mgrid over ranges
+# written with Python ints, handed on by scipy.optimize.brute), and so is a float32 one; the fixed values beside them are
+# non-integers, negative, zero, and not representable in float32 (0.1).  Every spelling below meets every pattern of fixed
+# values on every run.
+INT_VALUES = [2, 3, -1, 0, 7, -4, 1, 5]
+SPELLINGS = [                                             # (container, element kind(s), value class)
+    ('list', ['int'], 'i'), ('tuple', ['int'], 'i'), ('list', ['float'], 'f'), ('tuple', ['float'], 'f'),
+    ('list', ['npint'], 'i'), ('list', ['npint32'], 'i'), ('list', ['npfloat32'], 'f'), ('list', ['npfloat'], 'f'),
+    ('list', ['bool'], 'b'), ('list', ['npbool'], 'b'), ('list', ['np0d'], 'f'), ('list', ['np0d_int'], 'i'),
+    ('list', ['int', 'float'], 'i'), ('tuple', ['npint32', 'int'], 'i'),
+    ('array:int64', ['int'], 'i'), ('array:int32', ['int'], 'i'), ('array:int16', ['int'], 'i'), ('array:uint8', ['int'], 'u'),
+    ('array:bool', ['bool'], 'b'), ('array:float32', [None], 'f'), ('array:float64', [None], 'f'),
+    ('array:auto', ['int'], 'i'), ('array:auto', ['bool'], 'b'), ('array:auto', ['npint32'], 'i')]
+SCALAR_SPELLINGS = [('scalar', [k], vc) for k, vc in (('int', 'i'), ('float', 'f'), ('npint', 'i'), ('npint32', 'i'), ('npfloat32', 'f'),
+                                                       ('npfloat', 'f'), ('bool', 'b'), ('npbool', 'b'))] + \
+                   [('array0d', ['int'], 'i'), ('array0d', ['float'], 'f')]
+H, NEGF, TENTH, ZERO, NEGI, POSI = 'half', 'negfrac', 'tenth', 'zero', 'negint', 'posint'
+FIXED_SHAPES = {2: [[None, H, None], [H, None, None], [None, None, H],                # leading / middle / trailing
+                    [NEGF, None, ZERO, None], [None, TENTH, None, NEGI], [H, None, None, POSI], [None, None]],
+                1: [[None, H], [H, None], [NEGF, None, ZERO], [ZERO, TENTH, None], [None]]}
+
+def typed_values(rng, nvals, vclass, k0=0):
+    if vclass == 'i':
+        return [float(INT_VALUES[(k0 + j) % len(INT_VALUES)]) for j in range(nvals)]
+    if vclass == 'u':
+        return [float(abs(INT_VALUES[(k0 + j) % len(INT_VALUES)])) for j in range(nvals)]
+    if vclass == 'b':
+        return [float((k0 + j) % 2 == 0) for j in range(nvals)]
+    return [lib.dyadic(rng, -8, 8, 4) if (k0 + j) % 5 else 0.0 for j in range(nvals)]
+
+def typed_fixed(rng, rot, shape):
+    fixed, kinds = [], []
+    for st in shape:
+        if st is None:
+            fixed.append(None); kinds.append(None)
+        elif st == H:
+            fixed.append(rot.next([0.5, 1.5, 0.25, 2.75, 0.015625])); kinds.append(rot.next(['float', 'npfloat', 'np0d', 'npfloat32']))
+        elif st == NEGF:
+            fixed.append(rot.next([-0.75, -0.5, -3.25])); kinds.append(rot.next(['float', 'npfloat', 'npfloat32', 'np0d']))
+        elif st == TENTH:                                 # not a dyadic rational: no float32 holds it
+            fixed.append(rot.next([0.1, 1.0 / 3.0, 2.7, 1e-3])); kinds.append(rot.next(['float', 'npfloat', 'np0d']))
+        elif st == ZERO:
+            fixed.append(0.0); kinds.append(rot.next(ZKINDS))
+        elif st == NEGI:
+            fixed.append(rot.next([-2.0, -1.0, -7.0])); kinds.append(rot.next(['int', 'float', 'npint', 'npint32', 'np0d_int']))
+        else:
+            fixed.append(rot.next([2.0, 1.0, 10.0])); kinds.append(rot.next(['int', 'npint32', 'float', 'npint', 'bool'] if fixed[-1] == 1.0 else ['int', 'npint32', 'float', 'npint']))
+    return fixed, kinds
+
+def sub_rng(ctx, name):
+    """a generator of its own for a block added to a stream (deterministic from VERIF_SEED; leaves the draws of the other
+    blocks as they were)"""
+    return random.Random('C12/%s/%d' % (name, ctx.seed))
+
+def gen_project_types(ctx, cases, rot):
+    rng = sub_rng(ctx, 'project types')
+    for nfree, spellings in ((2, SPELLINGS), (1, SPELLINGS[:4] + SPELLINGS[14:16] + SCALAR_SPELLINGS)):
+        for container, ekinds, vclass in spellings:
+            for shape in FIXED_SHAPES[nfree]:
+                fixed, fkinds = typed_fixed(rng, rot, shape)
+                n = len(fixed)
+                k0 = rot.count('typed values')
+                full_container = container if container not in ('scalar', 'array0d') else rot.next(['list', 'tuple', 'array:auto'])
+                cases.append({'id': len(cases), 'fixed': fixed, 'fixed_kinds': fkinds, 'fixed_container': rot.next(CONTAINERS),
+                              'tag': 'types: %s of %s' % (container, '/'.join(str(k or 'float') for k in ekinds)), 'typed': True,
+                              'free': typed_values(rng, nfree, vclass, k0), 'free_kinds': [ekinds[j % len(ekinds)] for j in range(nfree)],
+                              'free_container': container,
+                              'pin': typed_values(rng, n, vclass, k0 + 3), 'pin_kinds': [ekinds[j % len(ekinds)] for j in range(n)],
+                              'pin_container': full_container,
+                              # numpy.isscalar(numpy.array(3)) is False and a 0-d array cannot be subscripted: the bare 0-d
+                              # array is outside the helper's domain -- it may raise, it may not answer with other values
+                              'may_raise': container == 'array0d'})
 
 def run_project(ctx, cases, seen):
     res = run_driver('project', cases, 300)
@@ -1280,9 +1599,16 @@ def run_project(ctx, cases, seen):
         nfree = len(c['free']) if fixed is None else sum(v is None for v in fixed)
         ctx.count('project ' + (c['tag'] if not set(c['tag']) <= set('FZNP') else 'pattern over {F,Z,N,P}'))
         ctx.count('project fixed_params as ' + str(c['fixed_container'] if fixed is not None else None))
-        ctx.case(signature=('j', c['pin'], c['free'], fixed, c['fixed_kinds'], c['fixed_container']),
-                 sample={'mode': 'project', 'pin': c['pin'], 'free': c['free'], 'fixed_params': typed_repr(fixed, c['fixed_kinds'], c['fixed_container'], True),
-                         'impl': {k: r.get(k) for k in ('down', 'up', 'down_up', 'up_down')}})
+        free_txt = typed_repr(c['free'], c.get('free_kinds'), c.get('free_container', c.get('pin_container'))) if not c.get('free_scalar') else repr(c['free'][0])
+        pin_txt = typed_repr(c['pin'], c.get('pin_kinds'), c.get('pin_container'))
+        if c.get('typed'):
+            for kd in set(c.get('fixed_kinds') or []):
+                if kd:
+                    ctx.count('project (typed vectors) fixed value type ' + kd)
+            ctx.count('project (typed vectors) expanded dtype %s' % r.get('up_type'))
+        ctx.case(signature=('j', c['pin'], c['free'], fixed, c['fixed_kinds'], c['fixed_container'], c.get('free_kinds'), c.get('free_container'), c.get('pin_container')),
+                 sample={'mode': 'project', 'pin': pin_txt, 'free': free_txt, 'fixed_params': typed_repr(fixed, c['fixed_kinds'], c['fixed_container'], True),
+                         'impl': {k: r.get(k) for k in ('down', 'up', 'down_up', 'up_down', 'free_type', 'up_type')}})
         call = 'fixed_params=%s' % typed_repr(fixed, c['fixed_kinds'], c['fixed_container'], True)
         def viol(key, msg):
             if key in seen:
@@ -1291,29 +1617,53 @@ def run_project(ctx, cases, seen):
             seen[key] = 1
             ctx.violation('%s: %s' % (call, msg), data={'mode': 'project', 'case': c, 'impl': r, 'call': call}, key=key)
         if 'error' in r:
-            viol('_project_params:' + r['error'].split(':')[0], 'pin=%r free=%r: %s' % (c['pin'], c['free'], r['error']))
+            viol('_project_params:' + r['error'].split(':')[0], 'pin=%s free=%s: %s' % (pin_txt, free_txt, r['error']))
             ctx.obligation('projection case %d (%s) completes' % (c['id'], c['tag']), False, 'correspondence', r['error'])
             continue
         numeric = all(v is not None for v in c['pin'])
-        if not any(isinstance(v, str) for k in ('down', 'up', 'down_up', 'up_down') for v in (r.get(k) or [])):
+        up_raised = r.get('up') is None
+        if c.get('may_raise') and up_raised:
+            # outside the helper's domain (see gen_project_types): refusing is fine, answering is held to the model
+            ctx.count('project bare 0-d array as the free vector: raises ' + str((r.get('errors') or {}).get('up', '')).split(':')[0])
+        if not any(isinstance(v, str) for k in ('down', 'up', 'down_up', 'up_down') for v in (r.get(k) or [])) and not (c.get('may_raise') and up_raised):
             exprs.append((c['id'], '{| j_pin := [%s]; j_free := %s; j_fixed := %s; ij_down := %s; ij_up := %s; ij_down_up := %s; ij_up_down := %s |}' % (
                 '; '.join(qopt(v) for v in c['pin']), ql(c['free']), qoptlist(fixed),
                 'None' if r['down'] is None else 'Some [' + '; '.join(qopt(v) for v in r['down']) + ']',
                 ol(r['up']), ol(r['down_up']), ol(r['up_down']))))
+        if c.get('typed') and fixed is not None and not up_raised:
+            # the carrier of the expanded vector: float64 holds every value that can come in (ints, float32, bool) exactly; an
+            # expanded vector that takes the type of the free vector does not hold the fixed values
+            ok_t = r.get('up_type') == 'float64'
+            ctx.obligation('projection case %d (%s): the expanded vector is a float64 array' % (c['id'], c['tag']), ok_t, 'predicate',
+                           '' if ok_t else 'free vector %s -> expanded vector of dtype %s' % (free_txt, r.get('up_type')))
+            if not ok_t:
+                viol('_project_params:up(x)-dtype', '_project_params_up(%s, f) is an array of dtype %s: it cannot hold fixed values exactly' % (free_txt, r.get('up_type')))
         # the property itself, on the real code
-        if len(c['free']) == nfree:
+        if len(c['free']) == nfree and not (c.get('may_raise') and up_raised):
+            # the expanded vector holds the fixed values at the fixed positions and the free values, in order, at the others --
+            # exactly, whatever Python / numpy type carried them in
+            k = iter(c['free'])
+            want_up = list(c['free']) if fixed is None else [next(k) if v is None else v for v in fixed]
+            if up_raised:
+                viol('_project_params:up(x)-raises', '_project_params_up(%s, f) raises %s' % (free_txt, (r.get('errors') or {}).get('up')))
+            elif r['up'] != want_up:
+                bad_i = [i for i in range(min(len(want_up), len(r['up']))) if r['up'][i] != want_up[i]]
+                where = ('length %d' % len(r['up'])) if not bad_i else ('entry %d is %s' % (bad_i[0], 'fixed at %r' % want_up[bad_i[0]] if fixed is not None and fixed[bad_i[0]] is not None else 'the free value %r' % want_up[bad_i[0]]))
+                viol('_project_params:up(x)-entries', '_project_params_up(%s, f) = %r (%s), expected %r (%s)' % (free_txt, r['up'], r.get('up_type'), want_up, where))
             if r['down_up'] is None:
-                viol('_project_params:down(up(x))-raises', '_project_params_down(_project_params_up(%r, f), f) raises %s' % (c['free'], (r.get('errors') or {}).get('down_up')))
+                viol('_project_params:down(up(x))-raises', '_project_params_down(_project_params_up(%s, f), f) raises %s' % (free_txt, (r.get('errors') or {}).get('down_up')))
             elif r['down_up'] != c['free']:
-                viol('_project_params:down(up(x))!=x', '_project_params_down(_project_params_up(x, f), f) = %r for x = %r' % (r['down_up'], c['free']))
+                viol('_project_params:down(up(x))!=x', '_project_params_down(_project_params_up(x, f), f) = %r for x = %s' % (r['down_up'], free_txt))
         if numeric and (fixed is None or len(fixed) == n):
             want = [c['pin'][i] if (fixed is None or fixed[i] is None) else fixed[i] for i in range(n)]
             if r['up_down'] is None:
-                viol('_project_params:up(down(p))-raises', '_project_params_up(_project_params_down(%r, f), f) raises %s' % (c['pin'], (r.get('errors') or {}).get('up_down')))
+                viol('_project_params:up(down(p))-raises', '_project_params_up(_project_params_down(%s, f), f) raises %s' % (pin_txt, (r.get('errors') or {}).get('up_down')))
             elif r['up_down'] != want:
-                viol('_project_params:up(down(p))!=p', '_project_params_up(_project_params_down(p, f), f) = %r for p = %r (fixed values written in: %r)' % (r['up_down'], c['pin'], want))
+                viol('_project_params:up(down(p))!=p', '_project_params_up(_project_params_down(p, f), f) = %r for p = %s (fixed values written in: %r)' % (r['up_down'], pin_txt, want))
             if r['down'] is not None and len(r['down']) != nfree:
-                viol('_project_params:down-length', '_project_params_down(%r, f) = %r: %d entries for %d free parameters' % (c['pin'], r['down'], len(r['down']), nfree))
+                viol('_project_params:down-length', '_project_params_down(%s, f) = %r: %d entries for %d free parameters' % (pin_txt, r['down'], len(r['down']), nfree))
+            elif r['down'] is not None and fixed is not None and r['down'] != [c['pin'][i] for i in range(n) if fixed[i] is None]:
+                viol('_project_params:down(p)-entries', '_project_params_down(%s, f) = %r, the free entries are %r' % (pin_txt, r['down'], [c['pin'][i] for i in range(n) if fixed[i] is None]))
     results = ctx.coq_cases('project', HEADER, exprs, 'jcheck', 'exact', shard=ctx.pick(120, 200), kind='projection', record_err=False)
     nbad = 0
     byid = {c['id']: (c, r) for c, r in zip(cases, res)}
@@ -1326,7 +1676,9 @@ def run_project(ctx, cases, seen):
             nbad += 1
             if nbad <= 2:
                 call = 'fixed_params=%s' % typed_repr(c['fixed'], c['fixed_kinds'], c['fixed_container'], True)
-                ctx.violation('_project_params_down/_up disagree with the model: %s pin=%r free=%r -> down %r up %r' % (call, c['pin'], c['free'], r.get('down'), r.get('up')),
+                pin_txt = typed_repr(c['pin'], c.get('pin_kinds'), c.get('pin_container')) if c.get('typed') else repr(c['pin'])
+                free_txt = typed_repr(c['free'], c.get('free_kinds'), c.get('free_container')) if c.get('typed') else repr(c['free'])
+                ctx.violation('_project_params_down/_up disagree with the model: %s pin=%s free=%s -> down %r up %r' % (call, pin_txt, free_txt, r.get('down'), r.get('up')),
                               data={'mode': 'project', 'case': c, 'impl': r, 'call': call}, no_input=True, broken='projection correspondence')
 
 # ------------------------------------------------------------------------------------------------
@@ -1433,7 +1785,12 @@ def run_perturb(ctx, cases, seen):
 def run(ctx):
     ctx.rule = ('projection: _project_params_down/_up on (vector, fixed pattern) with every Python spelling of zero (0, 0.0, -0.0, numpy.float64, numpy.int64, False) '
                 'in leading / middle / trailing position, every pattern over {free, zero, negative, positive}^n for n <= 3 (4), none / all fixed, fixed_params as list / tuple / '
-                'numpy object array, lists of bounds with None entries, wrong lengths, scalar and surplus vectors; '
+                'numpy object array, lists of bounds with None entries, wrong lengths, scalar and surplus vectors; every element type / container of the free and full '
+                'vector (Python int / float / bool, numpy int64 / int32 / int16 / uint8 / float32 / float64 / bool_, 0-d arrays, list / tuple / ndarray of each dtype, bare scalar, '
+                'bare 0-d array) x fixed values {non-integer, negative, zero, 0.1, integer} of every type in leading / middle / trailing position; '
+                'scripted and real, every wrapper, every run: whole-number box / start / bounds written with integer types (list, tuple, int64 / int32 arrays) beside non-integer fixed '
+                'values before / between / after the free parameters; optimize_grid with ranges typed all-int, int/float mixed, float, complex step, 1-3 free parameters, '
+                'likelihood peaked on a grid point; '
                 'scripted and real, on every run and for every wrapper: the same edge patterns of fixed values (zero before / between / after the free parameters, several, all; '
                 'negative; equal to a bound), bound entries equal to 0 (with a proposal / the data\'s parameter beyond them), bounds as list / tuple / numpy array; then '
                 'scripted: (wrapper, log_opt, 1-4 parameters, every pattern of fixed positions, bounds lists with None entries / whole-list None, '
